@@ -214,7 +214,7 @@ namespace lang
             if (size_ >= capacity_)
                 raise("No capacity left!");
 
-            replace(data_[size_], value);
+            data_[size_] = value;
             ++size_;
 
             return size_ - 1;
